@@ -4,7 +4,6 @@ import (
 	"encoding/json"
 	"fmt"
 	"os"
-	"strings"
 	"testing"
 	"time"
 
@@ -12,14 +11,21 @@ import (
 	"pgregory.net/rapid"
 
 	"verif/ev"
-	"verif/rig/codec"
 	"verif/rig/mesh"
 )
 
-const part = "chains"
+const (
+	partChains    = "chains"
+	partMisplaced = "misplaced"
+	partBudget    = "redo-budget"
+)
 
 const (
-	eventDeadline = 20 * time.Second       // neither a reply nor the stream's clean-up: inconclusive
+	// A healthy proxy produces the next event (filter call, reply, clean-up) within microseconds to a few
+	// milliseconds. If for eventDeadline neither a reply nor the stream's clean-up is observed the case is run a
+	// second time on a fresh listener; only a reproduced stall is reported ("stream abandoned"), a single one
+	// is inconclusive.
+	eventDeadline = 10 * time.Second
 	afterDestroy  = 3 * time.Second        // stream cleaned up (event) but an expected reply never reached the client
 	strayGrace    = 30 * time.Millisecond  // after a terminate was observed: is a reply sent anyway?
 	settle        = 15 * time.Millisecond  // end of case: late upstream arrivals / stray client bytes
@@ -35,11 +41,13 @@ type reply struct {
 }
 
 type observed struct {
-	Token    string  `json:"token"`
-	Calls    []call  `json:"calls"`
-	Replies  []reply `json:"replies"`
-	Upstream int     `json:"upstream_requests"`
-	Route    string  `json:"route,omitempty"`
+	Token     string  `json:"token"`
+	Calls     []call  `json:"calls"`
+	Replies   []reply `json:"replies"`
+	Upstream  int     `json:"upstream_requests"`
+	Route     string  `json:"route,omitempty"`
+	Abandoned bool    `json:"abandoned,omitempty"` // neither a reply nor the clean-up within eventDeadline
+	NotSent   bool    `json:"not_sent,omitempty"`  // the driver gave up before this request (an earlier one stalled)
 }
 
 func inconclusive(t ev.TB, c *chainCase, format string, a ...interface{}) {
@@ -48,9 +56,58 @@ func inconclusive(t ev.TB, c *chainCase, format string, a ...interface{}) {
 
 func TestPropChains(t *testing.T) {
 	ev.Check(t, func(rt *rapid.T) {
-		c := genCase(rt)
-		runCase(rt, &c)
+		c := genCase(rt, false)
+		runCase(rt, &c, partChains)
 	})
+}
+
+func TestPropMisplaced(t *testing.T) {
+	ev.Check(t, func(rt *rapid.T) {
+		c := genCase(rt, true)
+		runCase(rt, &c, partMisplaced)
+	})
+}
+
+// budgetCase: five filters (three after-route, two after-choose-host), `total` re-runs spread two per filter
+// from the front, the last filter finally returns `end`.
+func budgetCase(proto string, total int, end string) chainCase {
+	c := chainCase{Proto: proto, Send: 1, Reqs: []reqSpec{{}}}
+	for i := 0; i < 5; i++ {
+		f := recvSpec{Phase: phAfterRoute}
+		letter := "M"
+		if i >= 3 {
+			f.Phase, letter = phAfterChooseHost, "R"
+		}
+		var sc []string
+		for k := 0; k < 2 && total > 0; k++ {
+			sc = append(sc, letter)
+			total--
+		}
+		if i == 4 && end != "C" {
+			sc = append(sc, end)
+		} else if len(sc) > 0 {
+			sc = append(sc, "C")
+		}
+		f.Scripts = [][]string{sc}
+		c.Recv = append(c.Recv, f)
+	}
+	return c
+}
+
+// TestEnumRedoBudget: the corner of the generated domain rapid practically never draws: 5 receive filters
+// that each ask for 2 re-runs (8, 9, 10 in total), then forward or answer.
+func TestEnumRedoBudget(t *testing.T) {
+	for _, proto := range []string{"Http1", "bolt"} {
+		for _, total := range []int{8, 9, 10} {
+			for _, end := range []string{"C", "H403"} {
+				c := budgetCase(proto, total, end)
+				t.Run(fmt.Sprintf("%s-%d-%s", proto, total, end), func(t *testing.T) {
+					t.Parallel()
+					ev.Guard(func() { runCase(t, &c, partBudget) })
+				})
+			}
+		}
+	}
 }
 
 // TestReplay re-executes a JSON chainCase (VERIF_REPLAY=<file>).
@@ -67,7 +124,7 @@ func TestReplay(t *testing.T) {
 	if err := json.Unmarshal(b, &c); err != nil {
 		t.Fatal(err)
 	}
-	ev.Guard(func() { runCase(t, &c) })
+	ev.Guard(func() { runCase(t, &c, "replay") })
 }
 
 func routers(proto string) func(cluster string) []v2.Router {
@@ -93,19 +150,9 @@ func routers(proto string) func(cluster string) []v2.Router {
 	}
 }
 
-func runCase(t ev.TB, c *chainCase) {
-	cid := fmt.Sprintf("k%d", mesh.Uniq())
-	lg := registerCase(cid)
-	defer unregisterCase(cid)
+var letterClass = map[byte]string{'H': "hijack", 'B': "hijack-with-body", 'D': "direct-response", 'T': "terminate", 'M': "re-match", 'R': "re-choose"}
 
-	tokens := make([]string, len(c.Reqs))
-	exps := make([]expect, len(c.Reqs))
-	for r := range c.Reqs {
-		tokens[r] = fmt.Sprintf("%s-r%d", cid, r)
-		exps[r] = simulate(c, r, tokens[r])
-	}
-
-	// ---- evidence
+func record(c *chainCase, partName string) {
 	nonTriv := false
 	classes := []string{"proto:" + c.Proto}
 	seen := map[string]bool{}
@@ -115,23 +162,37 @@ func runCase(t ev.TB, c *chainCase) {
 			classes = append(classes, l)
 		}
 	}
-	for r := range exps {
-		e := &exps[r]
-		nonTriv = nonTriv || e.NonTriv
-		for _, k := range e.Kinds {
-			add(map[byte]string{'H': "hijack", 'B': "hijack-with-body", 'D': "direct-response", 'T': "terminate", 'M': "re-match", 'R': "re-choose"}[k])
-		}
-		for _, cl := range e.Calls {
-			if cl.Kind == "r" {
-				add("phase:" + phaseName[cl.Seen])
-				if cl.Verdict[0] != 'C' && cl.Verdict[0] != 'M' && cl.Verdict[0] != 'R' {
-					add("deny@" + phaseName[cl.Seen])
+	for r := range c.Reqs {
+		for _, mode := range []int{modeContinue, modeEndPass} {
+			e := simulate(c, r, "t", mode)
+			nonTriv = nonTriv || e.NonTriv
+			for _, k := range e.Kinds {
+				add(letterClass[k])
+			}
+			for _, cl := range e.Calls {
+				if cl.Kind == "r" {
+					add("phase:" + phaseName[cl.Seen])
+					switch cl.Verdict[0] {
+					case 'C':
+					case 'M', 'R':
+						if !honoured(cl.Verdict[0], cl.Seen) {
+							add("misplaced:" + letterClass[cl.Verdict[0]] + "@" + phaseName[cl.Seen])
+						}
+					default:
+						add("deny@" + phaseName[cl.Seen])
+					}
 				}
 			}
-		}
-		add("outcome:" + e.Outcome)
-		if e.Outcome != "up" && e.Rematch+strings.Count(string(e.Kinds), "R") > 0 {
-			add("redo-then-deny")
+			add("outcome:" + e.Outcome)
+			if e.Outcome != "up" && e.Redos > 0 {
+				add("redo-then-deny")
+			}
+			if e.Misplaced > 0 {
+				add("misplaced-executed")
+			}
+			if e.Redos >= 8 {
+				add(fmt.Sprintf("redos:%d", e.Redos))
+			}
 		}
 	}
 	if c.Send >= 2 {
@@ -143,9 +204,101 @@ func runCase(t ev.TB, c *chainCase) {
 	if len(c.Recv) == 0 {
 		add("no-receive-filters")
 	}
-	ev.Case(part, nonTriv, c.canonical(), func() interface{} { return c }, classes...)
+	ev.Case(partName, nonTriv, c.canonical(), func() interface{} { return c }, classes...)
+}
 
-	// ---- build the proxy for this case
+func runCase(t ev.TB, c *chainCase, partName string) {
+	record(c, partName)
+	tokens, obs := execute(t, c)
+	if stalled(obs) >= 0 {
+		// never judge a stall seen once: run the same case again on a fresh listener
+		tokens2, obs2 := execute(t, c)
+		r := stalled(obs2)
+		if r < 0 {
+			inconclusive(t, c, "request %d stalled for %v in the first run only", stalled(obs), eventDeadline)
+		}
+		tokens, obs = tokens2, obs2
+		ob, _ := json.Marshal(obs[r])
+		passes, last, lastSig := 1, "the request's arrival", "arrival"
+		for i := range obs[r].Calls {
+			cl := &obs[r].Calls[i]
+			last, lastSig = describe(cl), map[string]string{"r": "receive-filter", "s": "send-filter", "lb": "host-selection"}[cl.Kind]
+			if cl.Kind == "r" {
+				if honoured(cl.Verdict[0], cl.Seen) || cl.Verdict[0] == 'H' || cl.Verdict[0] == 'B' || cl.Verdict[0] == 'D' {
+					passes++
+				}
+				last += " returned " + verdictWord(cl.Verdict)
+				lastSig += ":" + verdictWord(cl.Verdict)
+			}
+		}
+		sig := "stream-abandoned:after-" + lastSig
+		if passes > 10 {
+			// root cause (downstream.go OnReceive): the phase loop is entered at most 10 times and then simply left
+			sig = "phase-loop-budget/stream-abandoned:more-than-10-passes"
+		}
+		ev.Fail(t, partName, sig, "request %d: after %s nothing happened any more (reproduced twice, %v each): no reply, no clean-up of the stream; %d passes through the proxy's phase loop were needed\nobserved: %s\ncase: %s",
+			r, last, eventDeadline, passes, ob, c.canonical())
+	}
+	for r := range obs {
+		a := simulate(c, r, tokens[r], modeContinue)
+		f := judge(c, r, &a, &obs[r])
+		if f == nil {
+			continue
+		}
+		b := simulate(c, r, tokens[r], modeEndPass)
+		if a.Misplaced == 0 && b.Misplaced == 0 {
+			ev.Fail(t, partName, f.sig, "%s", f.msg)
+		}
+		// a re-match / re-choose verdict outside its phase was executed: the other reading is acceptable too
+		if judge(c, r, &b, &obs[r]) == nil {
+			continue
+		}
+		sig := "misplaced-redo:" + f.sig
+		l := simulate(c, r, tokens[r], modeLeak)
+		if sameCalls(l.Calls, obs[r].Calls) {
+			// root cause (chain.go RunReceiverFilter + downstream.go receiverFilterStatusHandler): the chain keeps its
+			// cursor for every re-match/re-choose status, the proxy re-enters only for the honoured phase
+			sig = "misplaced-redo/cursor-kept:next-phase-starts-at-the-requesting-filter"
+		}
+		ev.Fail(t, partName, sig, "a re-match/re-choose verdict in a phase that does not honour it: neither reading (counts as continue / ends the pass) explains what happened; under both the filters of the following phases run from the first one\n%s", f.msg)
+	}
+}
+
+func stalled(obs []observed) int {
+	for r := range obs {
+		if obs[r].Abandoned {
+			return r
+		}
+	}
+	return -1
+}
+
+func sameCalls(a, b []call) bool {
+	if len(a) != len(b) {
+		return false
+	}
+	for i := range a {
+		if a[i].Kind != b[i].Kind || a[i].Idx != b[i].Idx || a[i].N != b[i].N {
+			return false
+		}
+	}
+	return true
+}
+
+// execute builds a fresh listener/router/cluster/upstream for the case, drives the requests and collects
+// what the filters, the upstream and the client saw.
+func execute(t ev.TB, c *chainCase) ([]string, []observed) {
+	cid := fmt.Sprintf("k%d", mesh.Uniq())
+	lg := registerCase(cid)
+	defer unregisterCase(cid)
+
+	tokens := make([]string, len(c.Reqs))
+	terminates := make([]bool, len(c.Reqs)) // only to pick the shorter grace period after the clean-up event
+	for r := range c.Reqs {
+		tokens[r] = fmt.Sprintf("%s-r%d", cid, r)
+		terminates[r] = simulate(c, r, tokens[r], modeContinue).Outcome == "term" || simulate(c, r, tokens[r], modeEndPass).Outcome == "term"
+	}
+
 	delays := map[string]time.Duration{}
 	for r, rq := range c.Reqs {
 		delays[tokens[r]] = time.Duration(rq.UpDelayUs) * time.Microsecond
@@ -171,15 +324,14 @@ func runCase(t ev.TB, c *chainCase) {
 	}
 	defer cs.Close()
 
-	// ---- drive the requests
 	obs := make([]observed, len(c.Reqs))
 	for r := range obs {
 		obs[r].Token = tokens[r]
 	}
 	if c.Proto == "Http1" {
-		driveH1(t, c, cs, lg, tokens, exps, obs)
+		driveH1(t, c, cs, lg, tokens, terminates, obs)
 	} else {
-		driveBolt(t, c, cs, lg, tokens, exps, obs)
+		driveBolt(t, c, cs, lg, tokens, terminates, obs)
 	}
 	for r := range obs {
 		obs[r].Calls = lg.get(tokens[r])
@@ -189,16 +341,12 @@ func runCase(t ev.TB, c *chainCase) {
 			obs[r].Route, _ = mesh.HeaderGet(us[len(us)-1].Header, routeHdr)
 		}
 	}
-
-	// ---- oracle
-	for r := range obs {
-		judge(t, c, r, &exps[r], &obs[r])
-	}
+	return tokens, obs
 }
 
 // ---------------------------------------------------------------- HTTP/1 client
 
-func driveH1(t ev.TB, c *chainCase, cs *mesh.Case, lg *caseLog, tokens []string, exps []expect, obs []observed) {
+func driveH1(t ev.TB, c *chainCase, cs *mesh.Case, lg *caseLog, tokens []string, terminates []bool, obs []observed) {
 	var cl *mesh.H1Client
 	defer func() {
 		if cl != nil {
@@ -245,14 +393,18 @@ func driveH1(t ev.TB, c *chainCase, cs *mesh.Case, lg *caseLog, tokens []string,
 			}
 			if !destroyedAt.IsZero() {
 				grace := afterDestroy
-				if exps[r].Outcome == "term" {
+				if terminates[r] {
 					grace = strayGrace
 				}
 				if now.Sub(destroyedAt) > grace {
 					break wait
 				}
 			} else if now.Sub(start) > eventDeadline {
-				inconclusive(t, c, "request %d: neither a reply nor the stream's clean-up within %v", r, eventDeadline)
+				obs[r].Abandoned = true
+				for k := r + 1; k < len(obs); k++ {
+					obs[k].NotSent = true
+				}
+				return
 			}
 			time.Sleep(poll)
 		}
@@ -303,7 +455,7 @@ func h1Reply(resp *mesh.H1Resp) reply {
 
 // ---------------------------------------------------------------- bolt client
 
-func driveBolt(t ev.TB, c *chainCase, cs *mesh.Case, lg *caseLog, tokens []string, exps []expect, obs []observed) {
+func driveBolt(t ev.TB, c *chainCase, cs *mesh.Case, lg *caseLog, tokens []string, terminates []bool, obs []observed) {
 	xc, err := mesh.DialX("bolt", cs.Addr)
 	if err != nil {
 		inconclusive(t, c, "dial: %v", err)
@@ -319,25 +471,24 @@ func driveBolt(t ev.TB, c *chainCase, cs *mesh.Case, lg *caseLog, tokens []strin
 				out[-1] = append(out[-1], reply{Status: -1, Body: "unparsable frame: " + ev.Short(f)})
 				continue
 			}
-			r := int(x.ID) - idBase
 			rp := reply{Status: int(x.Status), Body: string(x.Body)}
 			for _, kv := range x.Headers {
 				if string(kv.K) == answerHdr {
 					rp.Marker = string(kv.V)
 				}
 			}
-			out[r] = append(out[r], rp)
+			out[int(x.ID)-idBase] = append(out[int(x.ID)-idBase], rp)
 		}
 		return out
 	}
-	// done(r): the request reached its end as far as events can tell
-	await := func(rs []int) {
+	// await: every request of rs got a reply, or its stream was cleaned up and the grace period is over
+	await := func(rs []int) bool {
 		start := time.Now()
 		destroyedAt := map[int]time.Time{}
 		for {
 			fr := frames()
 			_, closed := xc.Responses()
-			all := true
+			var open []int
 			now := time.Now()
 			for _, r := range rs {
 				if len(fr[r]) > 0 {
@@ -348,27 +499,34 @@ func driveBolt(t ev.TB, c *chainCase, cs *mesh.Case, lg *caseLog, tokens []strin
 				}
 				if at, ok := destroyedAt[r]; ok {
 					grace := afterDestroy
-					if exps[r].Outcome == "term" {
+					if terminates[r] {
 						grace = strayGrace
 					}
 					if now.Sub(at) > grace {
 						continue
 					}
 				}
-				all = false
+				open = append(open, r)
 			}
-			if all || closed {
-				return
+			if len(open) == 0 {
+				return true
 			}
-			if now.Sub(start) > eventDeadline+afterDestroy {
-				inconclusive(t, c, "requests %v: neither a reply nor the stream's clean-up within %v", rs, eventDeadline)
+			if closed {
+				inconclusive(t, c, "the proxy closed the client connection while requests %v were open", open)
+			}
+			if now.Sub(start) > eventDeadline {
+				for _, r := range open {
+					if _, ok := destroyedAt[r]; !ok {
+						obs[r].Abandoned = true
+					}
+				}
+				return false
 			}
 			time.Sleep(poll)
 		}
 	}
 	send := func(r int) {
-		extra := []codec.KV{}
-		if err := xc.Send(mesh.XRequest("bolt", uint32(idBase+r), tokens[r], []byte("req:"+tokens[r]), 0, extra...)); err != nil {
+		if err := xc.Send(mesh.XRequest("bolt", uint32(idBase+r), tokens[r], []byte("req:"+tokens[r]), 0)); err != nil {
 			inconclusive(t, c, "send: %v", err)
 		}
 	}
@@ -382,7 +540,12 @@ func driveBolt(t ev.TB, c *chainCase, cs *mesh.Case, lg *caseLog, tokens []strin
 	} else {
 		for r := range c.Reqs {
 			send(r)
-			await([]int{r})
+			if !await([]int{r}) {
+				for k := r + 1; k < len(obs); k++ {
+					obs[k].NotSent = true
+				}
+				break
+			}
 		}
 	}
 	time.Sleep(settle)
@@ -417,30 +580,44 @@ func verdictWord(v string) string {
 	return "continue"
 }
 
-func judge(t ev.TB, c *chainCase, r int, e *expect, o *observed) {
+type failure struct{ sig, msg string }
+
+// judge compares what happened for one request with one expectation; nil = consistent.
+func judge(c *chainCase, r int, e *expect, o *observed) (res *failure) {
+	if o.NotSent {
+		return nil
+	}
 	ctx := func() string {
 		eb, _ := json.Marshal(e.Calls)
 		ob, _ := json.Marshal(o)
 		return fmt.Sprintf("request %d token %s expected outcome %s\nexpected calls: %s\nobserved: %s\ncase: %s", r, o.Token, e.Outcome, eb, ob, c.canonical())
 	}
+	type stop struct{}
+	defer func() {
+		if x := recover(); x != nil {
+			if _, ok := x.(stop); !ok {
+				panic(x)
+			}
+		}
+	}()
 	fail := func(sig, format string, a ...interface{}) {
-		ev.Fail(t, part, sig, "%s\n%s", fmt.Sprintf(format, a...), ctx())
+		res = &failure{sig, fmt.Sprintf(format, a...) + "\n" + ctx()}
+		panic(stop{})
 	}
-	deny := ""
+	deny, denied := "", "answered by the upstream"
 	if e.Outcome == "ans" {
 		deny = verdictWord(e.AnsV)
+		denied = fmt.Sprintf("answered (%s) by receive filter %d", deny, prevIdx(e))
 	} else if e.Outcome == "term" {
 		deny = "terminate"
+		denied = fmt.Sprintf("terminated by receive filter %d", prevIdx(e))
 	}
 
 	// 1. the negative fact first: a denied request never reaches an upstream
 	if deny != "" && o.Upstream > 0 {
 		last := e.Calls[len(e.Calls)-1-countSend(e.Calls)]
-		if last.Kind != "r" {
-			panic("model: denied without a receive filter")
-		}
 		fail(fmt.Sprintf("denied-request-forwarded:%s@%s", deny, phaseName[last.Seen]),
-			"a receive filter answered/terminated (%s) but the upstream saw %d request(s) with this token", deny, o.Upstream)
+			"the request was %s but the upstream saw %d request(s) with this token", denied, o.Upstream)
 	}
 
 	// 2. the call log: configured order, phases in order, at most once per pass, resume after re-match/re-choose,
@@ -465,7 +642,8 @@ func judge(t ev.TB, c *chainCase, r int, e *expect, o *observed) {
 			continue
 		}
 		prev := prevRecv(e.Calls, k)
-		afterRedo := prev != nil && (prev.Verdict == "M" || prev.Verdict == "R")
+		afterRedo := prev != nil && honoured(prev.Verdict[0], prev.Seen)
+		afterRechoose := !afterRedo && x != nil && k > 1 && e.Calls[k-1].Kind == "lb" && e.Calls[k-2].Kind == "r" && honoured(e.Calls[k-2].Verdict[0], e.Calls[k-2].Seen)
 		afterDeny := deny != "" && k >= len(e.Calls)-nSend
 		switch {
 		case y == nil: // something expected did not happen
@@ -485,9 +663,9 @@ func judge(t ev.TB, c *chainCase, r int, e *expect, o *observed) {
 			case y.Kind == "s":
 				fail("send/filter-ran-more-than-once:"+replyKind(e), "send filter %d invoked again (invocation #%d) for one %s reply", y.Idx, y.N, replyKind(e))
 			case y.Kind == "lb":
-				fail("host-selection/after-"+orStr(deny, "send-filters"), "a host was selected after the request had been %s", orStr(deny, "answered by the upstream"))
+				fail("host-selection/after-"+orStr(deny, "send-filters"), "a host was selected after the request had been %s", denied)
 			case deny != "":
-				fail("recv/filter-ran-after-"+deny, "receive filter %d ran after the request had been answered/terminated by filter %d", y.Idx, prevIdx(e))
+				fail("recv/filter-ran-after-"+deny, "receive filter %d ran after the request had been %s", y.Idx, denied)
 			}
 			fail("recv/extra-invocation", "receive filter %d invoked once more than the model allows (invocation #%d, phase %s)", y.Idx, y.N, phaseName[y.Seen%3])
 		case afterRedo && x.Kind == "lb": // re-choose: the host selection itself must be repeated
@@ -495,16 +673,16 @@ func judge(t ev.TB, c *chainCase, r int, e *expect, o *observed) {
 		case afterRedo && y.Kind == "r" && y.Idx < x.Idx:
 			w := verdictWord(prev.Verdict)
 			fail("recv/"+w+"-reran-earlier-filter", "after %s by filter %d the next invocation is filter %d (an earlier one), expected the requesting filter", w, prev.Idx, y.Idx)
-		case (afterRedo || k > 0 && e.Calls[k-1].Kind == "lb" && k > 1 && e.Calls[k-2].Verdict == "R") && y.Kind == "r":
+		case (afterRedo || afterRechoose) && y.Kind == "r":
 			w := "re-choose"
 			if afterRedo {
 				w = verdictWord(prev.Verdict)
 			}
 			fail("recv/"+w+"-did-not-resume-at-requesting-filter", "after %s the next invocation is filter %d (#%d), expected the requesting filter %d (#%d)", w, y.Idx, y.N, x.Idx, x.N)
 		case afterDeny && y.Kind == "r":
-			fail("recv/filter-ran-after-"+deny, "receive filter %d ran after the request had been answered by filter %d", y.Idx, prevIdx(e))
+			fail("recv/filter-ran-after-"+deny, "receive filter %d ran after the request had been %s", y.Idx, denied)
 		case afterDeny && y.Kind == "lb":
-			fail("host-selection/after-"+deny, "a host was selected after the request had been answered by filter %d", prevIdx(e))
+			fail("host-selection/after-"+deny, "a host was selected after the request had been %s", denied)
 		case x.Kind == "s" && y.Kind == "s":
 			fail("send/order", "send filters out of configured order: got filter %d (#%d), expected filter %d (#%d)", y.Idx, y.N, x.Idx, x.N)
 		case x.Kind == "r" && y.Kind == "r" && y.Idx == x.Idx:
@@ -553,16 +731,11 @@ func judge(t ev.TB, c *chainCase, r int, e *expect, o *observed) {
 		if !ok {
 			fail("client/wrong-reply:"+replyKind(e), "client received %+v, expected the %s reply (code %d marker %q body %q)", got, replyKind(e), e.Code, e.Marker, e.Body)
 		}
-		if e.Outcome == "up" {
-			want := "base"
-			if e.Rematch%2 == 1 {
-				want = "alt"
-			}
-			if o.Upstream > 0 && o.Route != want {
-				fail("re-match/route-not-re-evaluated", "after %d re-match verdict(s) (each toggles the header the first route matches on) the forwarded request carries route tag %q, expected %q", e.Rematch, o.Route, want)
-			}
+		if e.Outcome == "up" && o.Upstream > 0 && o.Route != e.RouteTag {
+			fail("re-match/route-not-re-evaluated", "every re-match verdict toggles the header the first route matches on; the forwarded request carries route tag %q, expected %q", o.Route, e.RouteTag)
 		}
 	}
+	return nil
 }
 
 func orStr(a, b string) string {
@@ -619,7 +792,7 @@ func prevRecv(cs []call, k int) *call {
 	return nil
 }
 
-// ranBefore: y.Idx was already invoked earlier and none of its earlier verdicts asked for a redo
+// ranBefore: y.Idx was already invoked earlier and its last verdict did not ask for a re-run
 func ranBefore(before []call, y call) bool {
 	for i := len(before) - 1; i >= 0; i-- {
 		b := before[i]
